@@ -92,4 +92,17 @@ PROPS["C13"] = dict(jobs=None, obl=None, bounded="c13", level="other", design="4
 PROPS["C17"] = dict(jobs=upd("VideoStreamingJob", "GPUServer", "GenAI", "update_occupied_"), obl=ALL_OBL, bounded="c17", level="other", design="4 C17",
                     technique="P: contracts on the derived-parameter rules of VideoStreamingJob (all 7 resolutions), GenAIJob, GenAIModel, GPUServer and on the server's occupied resources (service base consumption added), incl. completeness of recorded ancestors (refresh); B: builder systems over every resolution / technology / model-parameter kind / sampled instance types: derived parameters vs the stated rules recomputed independently, footprints vs the plain twin model, refresh after every builder-input change vs a fresh build")
 
+PROPS["C02"]["assumptions"] = [
+    "A-INDEX: modeling_obj_containers (the reverse index kept by the link layer) lists exactly the objects that reference an object, each once; its maintenance is property C16 (bounded tier)",
+    "A-DISJOINT: a service job holds no server link of its own and belongs to exactly one service (used only for 'ServerBase.jobs lists no job twice')",
+    "A-UUID: object ids are pairwise distinct (dictionaries keyed by id are keyed by object)"]
+for _p in ("C05", "C08", "C01"):
+    PROPS[_p]["assumptions"] = PROPS[_p].get("assumptions", []) + [
+        "A-LISTCOMP: a filter comprehension over a list yields the order-preserving sub-list of the elements satisfying the test (stated as definitional facts about a fresh list)",
+        "A-ID: the id of an attached value is a function of (attribute name, container id) and a value without container has none (the real `id` property formats exactly these two and raises otherwise)",
+        "callee contracts used at call sites: add_child / remove_child as set insertion / removal on has(node, id) (each proved in its own job); return_direct_ancestors_with_id_to_child hands down a list without repeated ids (proved in its own job)"]
+PROPS["C14"]["assumptions"] = ["A-PYOBJ: inspect.signature, typing.get_origin / get_args, isinstance / issubclass on concrete classes are evaluated by Python itself on the real annotation objects",
+                               "the validator contract treats EmptyExplainableObject as accepted for every parameter (for links and names the operation is refused further down before any write: bounded tier)"]
+PROPS["C06"]["assumptions"] = ["the two proof-tier obligations are statement-level facts of ModelingUpdate.__init__ (shape of an assignment, position of a raise); anything else about C06 is decided by the bounded tier only"]
+
 NOT_BUILT = {}
